@@ -5,7 +5,7 @@ CHECKS = {
         "engine": "p_crc7",
         "technique": "runtime monitor: differential oracle (bit-serial CRC) over exhaustive 2-byte space + sampled fold-state observation via sys.monitoring",
         "ref": "DESIGN.md section 6 (C20)",
-        "text": "crc7() is executed on all 65 536 two-byte messages (every (running checksum, byte) transition of the table-driven fold), on sampled calls whose running checksum is observed after every byte inside the real frame, on random messages up to 4 KiB in five container types, on random equal-length pairs (linearity) and on every single-bit / two-bit (<127 apart) / burst<=7 error pattern for each message length up to 40 bytes; the oracle is an independent bit-serial CRC. Held-on-observed, not a proof for unbounded lengths; the fold-structure observation is what ties longer messages to the exhaustively checked transitions.",
+        "text": "crc7() is executed on all 65 536 two-byte messages (every (running checksum, byte) transition of the table-driven fold), on sampled calls whose running checksum is observed after every byte inside the real frame, on random messages up to 20 000 bytes in six container types (also one buffer / memoryview object changed in place and checksummed again, long zero runs, zero bytes at 4096-byte block boundaries, the keyword spelling, a child interpreter under python -O / -OO), on random equal-length pairs (linearity) and on every single-bit / two-bit (<127 apart) / burst<=7 error pattern for each message length up to 40 bytes; the oracle is an independent bit-serial CRC. Held-on-observed, not a proof for unbounded lengths; the fold-structure observation is what ties longer messages to the exhaustively checked transitions.",
         "note": "trusts the 12-line bit-serial reference (self-tested in setup) and CPython's sys.monitoring LINE events for the fold probe",
     },
 }
@@ -20,14 +20,14 @@ for _pid, _txt in {
 }.items():
     CHECKS[_pid] = {
         "engine": "sm_engine",
-        "technique": "runtime monitor: generated StateMachine subclasses and online-generated call histories under the paused HAL clock, checked against a set-valued executable reference model",
+        "technique": "runtime monitor: generated StateMachine subclasses and online-generated call histories under the paused HAL clock, checked against a set-valued executable reference model; every library call bounded by a line budget (sys.monitoring) in the confirming replay",
         "ref": "DESIGN.md section 3",
         "text": "Real magicbot.StateMachine subclasses (1-6 states, inheritance, overrides) are driven through ~10^4 (quick) / ~4*10^5 (thorough) random histories with adversarial clock steps; the monitor checks " + _txt + ". Held on the executions observed; event-kind counters in the evidence show which situations were actually reached.",
         "note": _SM_NOTE,
     }
 CHECKS["C13"] = {
     "engine": "sm_engine",
-    "technique": "runtime monitor: AutonomousStateMachine in lock-step with a plain StateMachine twin engaged every iteration, plus absolute trace rules after the end",
+    "technique": "runtime monitor: AutonomousStateMachine in lock-step with a plain StateMachine twin engaged every iteration, plus absolute trace rules (nothing after the end; a last timed state never called past first call + duration; argument types; first call after on_enable)",
     "ref": "DESIGN.md section 3 (C13)",
     "text": "Generated AutonomousStateMachine subclasses run 1-4 autonomous periods (on_enable / on_iteration / on_disable, disable mid-run, many post-end iterations); every state-function call and argument is compared with a twin StateMachine of identical shape that is engage()d before every iteration at the same clock values; after done()/last-state expiry no state function may run and is_executing must stay False until the next on_enable, which must start at the first state with tm 0.",
     "note": "twin and machine share the StateMachine core, so defects of the core itself are C01-C04's business, by design; trusts the paused HAL clock",
@@ -44,14 +44,14 @@ CHECKS["C18"] = {
     "engine": "p_units",
     "technique": "runtime monitor: differential oracle in exact rational arithmetic over all 64 unit triples, random user-defined unit chains, real sonar/pressure drivers fed through the simulator",
     "ref": "DESIGN.md section 6 (C18)",
-    "text": "units.convert is compared with exact rational arithmetic (identity, round trip, composition, homogeneity, additivity, named ratios) on all ordered triples of the defined units and on random user-defined chains of depth up to 8; MaxSonar pulse-width/analog drivers for every output unit and the REV pressure sensor (any V incl. 0/negative/inf, Vcc incl. 0, calibration pressure >= 0) are read through real driver objects and compared with the statement's formulas.",
+    "text": "units.convert is compared with exact rational arithmetic (identity, round trip, composition, homogeneity, additivity, named ratios) on all ordered triples of the defined units and on random user-defined chains (depth up to 24, and linear chains of 1100-5200 units, deeper than the interpreter's recursion limit); MaxSonar pulse-width/analog drivers for every output unit and the REV pressure sensor (any V incl. 0/negative/inf, Vcc incl. 0, calibration pressure >= 0) are read through real driver objects and compared with the statement's formulas.",
     "note": "Counter.getPeriod has no simulator setter: a stub counter object is substituted (as the repository's own test does); values whose exact result leaves the double range are not compared",
 }
 CHECKS["C12"] = {
     "engine": "p_smdef",
     "technique": "runtime monitor: exhaustive enumeration of forbidden names / signatures plus generated class hierarchies, expected-outcome oracle computed from the statement",
     "ref": "DESIGN.md section 5 (C12)",
-    "text": "Every attribute name of StateMachine x 3 decorators, every illegal signature element and all 16 legal parameter subsets, aliasing, non-StateMachine owners and direct calls are executed against the real decorators; random single/linear/diamond hierarchies with overriding by states and non-states are instantiated and the outcome compared with (k first, j default) computed through Python's own MRO; for accepted machines state_names / state_descriptions (attribute and NetworkTables) are checked for set equality, ordering constraints and alignment.",
+    "text": "Every attribute name of StateMachine x 3 decorators, every illegal signature element and all 16 legal parameter subsets, aliasing, non-StateMachine owners and direct calls are executed against the real decorators; every definition item is also repeated in a shuffled order (verdicts must not depend on earlier definitions); random single/linear/diamond hierarchies with overriding by states and non-states are instantiated (also under a component name another machine is still publishing) and the outcome compared with (k first, j default) computed through Python's own MRO; for accepted machines state_names / state_descriptions (attribute and NetworkTables) are checked for set equality, ordering constraints and alignment.",
     "note": "order between sibling bases and the position of overridden states are don't-cares; annotation-only names are reported, not judged",
 }
 CHECKS["C19"] = {
